@@ -37,6 +37,12 @@ var codecPairs = []codecPair{
 
 func c03() []*Ob {
 	return []*Ob{
+		{Prop: "C03", ID: "C03.13", Engine: "OWN(copy out of scratch)", Floor: 2,
+			Desc:  "a cached block is not a window into a reused buffer: lids.Chunks.unpack assigns the slice fields of the Chunks (which goes into the LIDs cache) only copies — never the scratch buffer the loader hands in, or a sub-slice of it. A 'zero-copy' hand-over of a block that is one big chunk leaves the cache entry pointing into memory that the loader refills with the next block: cold caches answer right, warm caches wrong",
+			Check: func(c *Ctx) { decodedOwnsItsMemory(c) }},
+		{Prop: "C03", ID: "C03.14", Engine: "PROV(per element)", Floor: 1,
+			Desc:  "each token's iterator starts in the block looked up for that token: every value sealedTokenIndex.GetLIDsFromTIDs stores into its table of start blocks is the result of a call that receives the tid of that position — not the neighbour's entry read back from the table. 'Neighbouring tids share a block' holds for the first-block lookup (descending) and fails for the last-block lookup (ascending) when the token's postings continue into later blocks: the continuation is never visited, in ascending order only",
+			Check: func(c *Ctx) { startBlockPerTID(c) }},
 		{Prop: "C03", ID: "C03.11", Engine: "PAIR(two sites)", Floor: 1,
 			Desc:  "a field's lowest token is read back as it was written: the token table loader takes FieldData.MinVal from entry 0, or — if it takes the first non-empty one — the writer gives a MinVal to the first entry of a field only. With both relaxed, a field whose lowest token is the empty string gets the second block's first token as its minimum in the reloaded table, and hints below it select nothing",
 			Check: func(c *Ctx) { fieldMinValIsFirstEntrys(c) }},
